@@ -1,0 +1,74 @@
+//! Verification hooks (built only with `--cfg minimq_verif`): read-only view of the session state
+//! and a setter for the packet identifier counter. Nothing here changes client behaviour.
+use core::fmt::Write;
+use std::string::String;
+
+use super::Session;
+
+impl Session<'_> {
+    /// Canonical one-line text rendering of the complete local session state.
+    pub fn verif_snapshot(&self) -> String {
+        let mut out = String::new();
+        self.data.outbound.verif_dump(&mut out);
+        write!(
+            out,
+            " pid={} gen={} sp={} srv=[",
+            self.data.verif_packet_id(),
+            self.data.generation(),
+            self.data.session_present as u8
+        )
+        .unwrap();
+        for (i, id) in self.data.pending_server_packet_ids.iter().enumerate() {
+            if i != 0 {
+                out.push(',');
+            }
+            write!(out, "{}", id).unwrap();
+        }
+        write!(
+            out,
+            "] quota={} maxquota={} mps=",
+            self.runtime.send_quota, self.runtime.max_send_quota
+        )
+        .unwrap();
+        match self.runtime.maximum_packet_size {
+            Some(size) => write!(out, "{}", size).unwrap(),
+            None => out.push('-'),
+        }
+        out.push_str(" maxqos=");
+        match self.runtime.max_qos {
+            Some(qos) => write!(out, "{}", qos as u8).unwrap(),
+            None => out.push('-'),
+        }
+        write!(out, " ka={} np=", self.runtime.keepalive_interval.as_millis()).unwrap();
+        match self.runtime.next_ping {
+            Some(instant) => write!(out, "{}", instant.as_millis()).unwrap(),
+            None => out.push('-'),
+        }
+        out.push_str(" pt=");
+        match self.runtime.ping_timeout {
+            Some(instant) => write!(out, "{}", instant.as_millis()).unwrap(),
+            None => out.push('-'),
+        }
+        let (read_bytes, packet_length) = self.packet_reader.verif_progress();
+        write!(
+            out,
+            " resumed={} rb={} pl=",
+            self.runtime.session_resumed as u8, read_bytes
+        )
+        .unwrap();
+        match packet_length {
+            Some(length) => write!(out, "{}", length).unwrap(),
+            None => out.push('-'),
+        }
+        out.push_str(" cid=");
+        for byte in self.client_id.as_bytes() {
+            write!(out, "{:02x}", byte).unwrap();
+        }
+        out
+    }
+
+    /// Preset the packet identifier counter (lets bounded runs start next to the wrap point).
+    pub fn verif_set_next_packet_id(&mut self, packet_id: u16) {
+        self.data.verif_set_packet_id(packet_id);
+    }
+}
